@@ -46,6 +46,7 @@ type modelFS struct {
 	handles map[*Cell]*mhandle
 	log     []fsWrite
 	cwd     string
+	mark    int
 }
 
 func (ex *Exec) getFS() *modelFS {
@@ -140,12 +141,18 @@ func (ex *Exec) handleOf(v Value) *mhandle {
 	return h
 }
 
+// concreteString returns the string value, case-splitting over every symbolic byte (the harness
+// keeps names over a small alphabet, so the split is small).
 func (ex *Exec) concreteString(v Value, what string) string {
-	s, ok := v.(*StrVal).concrete()
-	if !ok {
-		ex.unsupported("symbolic " + what)
+	sv := v.(*StrVal)
+	if s, ok := sv.concrete(); ok {
+		return s
 	}
-	return s
+	bs := make([]byte, len(sv.b))
+	for i, t := range sv.b {
+		bs[i] = byte(ex.Concretize(t, what+" byte"))
+	}
+	return string(bs)
 }
 
 const (
@@ -537,6 +544,25 @@ func registerOSModels() {
 		fs := ex.getFS()
 		fs.nodes[fs.clean(ex.concreteString(a[1], "path"))] = &mnode{kind: 2, target: ex.concreteString(a[0], "target")}
 		return nil
+	}
+	apiFns["vFSMarkFor"] = func(ex *Exec, fn *ssa.Function, a []Value) Value {
+		ex.getFS().mark = len(ex.getFS().log)
+		return nil
+	}
+	apiFns["vFSMark"] = func(ex *Exec, fn *ssa.Function, a []Value) Value {
+		ex.getFS().mark = len(ex.getFS().log)
+		return nil
+	}
+	// vFSOutsideChanged(dir): did any mutation since vFSMark touch a path outside dir?
+	apiFns["vFSOutsideChanged"] = func(ex *Exec, fn *ssa.Function, a []Value) Value {
+		fs := ex.getFS()
+		dir, _ := fs.resolve(ex.concreteString(a[0], "path"), true, 0)
+		for _, w := range fs.log[fs.mark:] {
+			if w.path != dir && !strings.HasPrefix(w.path, dir+"/") {
+				return ex.tt.True
+			}
+		}
+		return ex.tt.False
 	}
 	// vFSMutations: number of mutations logged so far (writes, truncates, creations, removals)
 	apiFns["vFSMutations"] = func(ex *Exec, fn *ssa.Function, a []Value) Value {
